@@ -59,14 +59,16 @@ Proof. intros fuel root ks res B H. exact (extract_reverse_last fuel root ks res
    of two keys for the same class one is always redundant, so a list that pumps
    the root and is minimal for that has pairwise distinct left-hand sides. *)
 
-(* for ANY key list; uses Classical_Prop.classic (to compare the worth of the
-   class in the two lists with one of the keys removed) *)
+(* for ANY key list.  (AUDIT: this used to be closed with Positional.minimal_one_rule_per_class,
+   which uses Classical_Prop.classic to compare the worth of the class in the two lists with one
+   of the keys removed; the table method DECIDES that comparison — PositionalTotal.valued_total —
+   so the statement is now closed under the global context.) *)
 Theorem C11_minimal_one_rule_per_class : forall (R : list fkey) (root : nat),
   pumps R root ->
   (forall i, (i < length R)%nat -> ~ pumps (firstn i R ++ skipn (S i) R) root) ->
   forall i j, (i < length R)%nat -> (j < length R)%nat ->
     parent (nth i R dummy) = parent (nth j R dummy) -> i = j.
-Proof. exact minimal_one_rule_per_class. Qed.
+Proof. exact minimal_one_rule_per_class_total. Qed.
 
 (* the same without any axiom, the value dichotomy (pumps, or has exactly n
    terms) being a hypothesis on the lists with one key removed *)
@@ -80,19 +82,21 @@ Theorem C11_minimal_one_rule_per_class_valued : forall (R : list fkey) (root : n
 Proof. exact minimal_one_rule_per_class_valued. Qed.
 
 (* memoryless determinacy itself: some sub-list with pairwise distinct
-   left-hand sides derives the same (class, value) pairs; uses classic *)
+   left-hand sides derives the same (class, value) pairs (AUDIT: now axiom free,
+   PositionalTotal.positional_strong_total) *)
 Theorem C11_positional : forall R : list fkey,
   exists R', incl R' R /\ NoDup (map parent R') /\
              forall c v, derivable R c v -> derivable R' c v.
-Proof. exact positional_strong. Qed.
+Proof. exact positional_strong_total. Qed.
 
 (* the extracted keys have pairwise distinct left-hand sides, i.e. check()'s
-   assertion cannot fail on the model's result; uses classic *)
+   assertion cannot fail on the model's result (AUDIT: now axiom free,
+   PositionalTotal.extract_one_rule_per_class_total) *)
 Theorem C11_one_rule_per_class : forall fuel root ks res,
   buckets_ok ks -> extract fuel root ks = Ok res -> Pk root ks ->
   forall i j, (i < length res)%nat -> (j < length res)%nat ->
     parent (bk_key (nth i res (mkb dummy 0))) = parent (bk_key (nth j res (mkb dummy 0))) -> i = j.
-Proof. intros fuel root ks res B H. exact (extract_one_rule_per_class fuel root ks res B H). Qed.
+Proof. exact extract_one_rule_per_class_total. Qed.
 
 (* the same without any axiom, given that the table method terminates on the
    result with any one key removed (C03 termination would discharge this) *)
@@ -157,8 +161,8 @@ Proof. exact run_c11_never_out_of_fuel. Qed.
 (* ================= ONE RULE PER CLASS, AXIOM-FREE ================= *)
 (* C03 termination decides, for every key list, whether a class pumps or has exactly n terms
    (valued_total); that was the only use of Classical_Prop.classic in Positional.v.  These are
-   the same statements as C11_minimal_one_rule_per_class / C11_one_rule_per_class, closed under
-   the global context. *)
+   the same statements as C11_minimal_one_rule_per_class / C11_one_rule_per_class (which are now
+   closed with the same axiom-free lemmas; the two names below are kept). *)
 Theorem C11_minimal_one_rule_per_class_total : forall (R : list fkey) (root : nat),
   pumps R root ->
   (forall i, (i < length R)%nat -> ~ pumps (firstn i R ++ skipn (S i) R) root) ->
@@ -182,6 +186,196 @@ Proof.
   split; [vm_compute; reflexivity|].
   intros k Hk. simpl in Hk. repeat (destruct Hk as [<-|Hk]; [simpl; auto with arith|]). destruct Hk.
 Qed.
+
+(* ------------------------------------------------------------------------
+   NON-VACUITY (audit): every theorem of this file with a premise is APPLIED to a concrete
+   instance.  Universe c11_ks: seven keys over the classes 0..3 in all four buckets — two keys for
+   class 0, three for class 1 (one of them a REVERSE key), two for class 3; root 0.  The extractor
+   keeps four of them, one per class, and no REVERSE key. *)
+Require Import Lia.
+From CSS Require Import Forest.Theorems Forest.TerminationDefs Forest.TerminationRun.
+Open Scope Z_scope.
+Definition k_0a := mkb (mkkey 0 [(1%nat, 1); (2%nat, 0)]) 1.
+Definition k_1r := mkb (mkkey 1 [(0%nat, 0)]) 0.
+Definition k_2  := mkb (mkkey 2 [(3%nat, 1)]) 2.
+Definition k_3a := mkb (mkkey 3 [(3%nat, 1)]) 1.
+Definition k_1  := mkb (mkkey 1 [(3%nat, 2)]) 1.
+Definition k_3v := mkb (mkkey 3 []) 3.
+Definition k_0b := mkb (mkkey 0 [(0%nat, 1); (1%nat, 0)]) 1.
+Definition c11_ks : list bkey := [k_0a; k_1r; k_2; k_3a; k_1; k_3v; k_0b].
+Definition c11_res : list bkey := [k_0a; k_1; k_2; k_3v].
+Definition c11_st : tm := Eval vm_compute in run_total pick0 (add_ops c11_ks).
+Definition c11_stS : tm := Eval vm_compute in run_total pick0 (add_ops c11_res).
+
+Lemma c11_buckets : buckets_ok c11_ks.
+Proof. intros k Hk. simpl in Hk. repeat (destruct Hk as [<-|Hk]; [simpl; auto with arith|]). destruct Hk. Qed.
+Lemma c11_extract : extract 500 0 c11_ks = Ok c11_res.
+Proof. vm_compute. reflexivity. Qed.
+(* "the start class pumps" is read off a table-method run (C03: prod_tm_spec) *)
+Ltac pk_by_run := refine (proj1 (prod_tm_spec 500 _ _ true _) eq_refl); vm_compute; reflexivity.
+Ltac not_pk_by_run :=
+  let P := fresh in intros P; refine (_ (proj2 (prod_tm_spec 500 _ _ false _) P));
+    [discriminate|vm_compute; reflexivity].
+Lemma c11_Pk : Pk 0 c11_ks.
+Proof. pk_by_run. Qed.
+Lemma c11_run : run pick0 500 init (add_ops c11_ks) = Some c11_st.
+Proof. vm_compute. reflexivity. Qed.
+Lemma c11_runS : run pick0 100 init (add_ops c11_res) = Some c11_stS.
+Proof. vm_compute. reflexivity. Qed.
+
+Example C11_subset_nonvacuous :
+  In k_1 c11_ks /\ pumps (map bk_key c11_ks) 1 /\
+  forall c s, In (c, s) [(3%nat, 2)] -> pumps (map bk_key c11_ks) c.
+Proof. apply (C11_subset 500 0%nat c11_ks c11_res c11_extract k_1). simpl. auto. Qed.
+
+Example C11_productive_nonvacuous : Pk 0 c11_res.
+Proof. exact (C11_productive 500 0%nat c11_ks c11_res c11_buckets c11_extract c11_Pk). Qed.
+
+Example C11_minimal_nonvacuous :
+  ~ Pk 0 [k_1; k_2; k_3v] /\ ~ Pk 0 [k_0a; k_2; k_3v] /\ ~ Pk 0 [k_0a; k_1; k_3v] /\ ~ Pk 0 [k_0a; k_1; k_2].
+Proof.
+  pose proof (C11_minimal 500 0%nat c11_ks c11_res c11_extract) as M.
+  split; [apply (M 0%nat); simpl; lia|]. split; [apply (M 1%nat); simpl; lia|].
+  split; [apply (M 2%nat); simpl; lia|apply (M 3%nat); simpl; lia].
+Qed.
+(* the conclusion discriminates: the inserted list itself is productive but NOT minimal *)
+Example C11_minimal_near_miss : Pk 0 (firstn 1 c11_ks ++ skipn 2 c11_ks).
+Proof. pk_by_run. Qed.
+
+Example C11_closed_nonvacuous :
+  forall k c, In k c11_res -> mentions_class c k -> exists k', In k' c11_res /\ parent (bk_key k') = c.
+Proof.
+  exact (C11_closed 500 0%nat c11_ks c11_res pick0 100%nat c11_stS c11_extract c11_runS
+           C11_productive_nonvacuous).
+Qed.
+(* the conclusion discriminates: the rule set without its last key mentions class 3 without a rule *)
+Example C11_closed_near_miss :
+  mentions_class 3 k_1 /\ ~ exists k', In k' [k_0a; k_1; k_2] /\ parent (bk_key k') = 3%nat.
+Proof.
+  split; [right; exists 2; simpl; auto|]. intros (k' & Hk & E).
+  simpl in Hk. repeat (destruct Hk as [<-|Hk]; [discriminate|]). destruct Hk.
+Qed.
+
+(* REVERSE keys: the pumping sub-universe without its REVERSE key still pumps the root, so no
+   REVERSE key is extracted although one (k_1r) is available ... *)
+Lemma c11_no_reverse_needed :
+  exists st, run pick0 500 init (add_ops c11_ks) = Some st /\
+     Pk 0 (filter (fun k => negb (in_bucket 0 k))
+                  (map (fun i => nth i c11_ks (mkb dummy 0)) (pumping_subuniverse st))).
+Proof. exists c11_st. split; [exact c11_run|]. pk_by_run. Qed.
+Example C11_reverse_last_nonvacuous : forall k, In k c11_res -> bk_bucket k <> 0%nat.
+Proof. exact (C11_reverse_last 500 0%nat c11_ks c11_res c11_buckets c11_extract c11_no_reverse_needed). Qed.
+(* ... whereas a universe that needs its REVERSE key gets it (the premise fails there) *)
+Example C11_reverse_last_near_miss :
+  extract 500 0 [mkb (mkkey 0 [(1%nat, 1)]) 1; k_1r] = Ok [k_1r; mkb (mkkey 0 [(1%nat, 1)]) 1] /\
+  ~ Pk 0 [mkb (mkkey 0 [(1%nat, 1)]) 1].
+Proof. split; [vm_compute; reflexivity|not_pk_by_run]. Qed.
+
+(* one rule per class for ANY minimal pumping key list: binary words,
+   0 -> (1 shift 0), 1 -> (0 shift 1)(0 shift 1) *)
+Definition c11_R : list fkey := [mkkey 0 [(1%nat, 0)]; mkkey 1 [(0%nat, 1); (0%nat, 1)]].
+Lemma pumps_decided (R : list fkey) (c : nat) :
+  pumps R c <-> pumping_answer (run_total pick0 (map AddKey R)) c = true.
+Proof.
+  destruct (TerminationRun.total_sound_complete pick0 (map AddKey R) c) as [A _].
+  rewrite keys_of_addkeys in A. symmetry. exact A.
+Qed.
+Lemma c11_R_pumps : pumps c11_R 0.
+Proof. apply pumps_decided. vm_compute. reflexivity. Qed.
+Lemma c11_R_minimal : forall i, (i < length c11_R)%nat ->
+  ~ pumps (firstn i c11_R ++ skipn (S i) c11_R) 0.
+Proof.
+  intros [|[|i]] Hi P; [| |simpl in Hi; lia]; apply pumps_decided in P; vm_compute in P; discriminate.
+Qed.
+Lemma c11_R_valued : forall i c, (i < length c11_R)%nat ->
+  pumps (firstn i c11_R ++ skipn (S i) c11_R) c \/ exists n, terms (firstn i c11_R ++ skipn (S i) c11_R) c n.
+Proof. intros i c _. apply valued_total. Qed.
+Example C11_minimal_one_rule_per_class_nonvacuous :
+  forall i j, (i < 2)%nat -> (j < 2)%nat -> parent (nth i c11_R dummy) = parent (nth j c11_R dummy) -> i = j.
+Proof. exact (C11_minimal_one_rule_per_class c11_R 0%nat c11_R_pumps c11_R_minimal). Qed.
+Example C11_minimal_one_rule_per_class_valued_nonvacuous :
+  forall i j, (i < 2)%nat -> (j < 2)%nat -> parent (nth i c11_R dummy) = parent (nth j c11_R dummy) -> i = j.
+Proof. exact (C11_minimal_one_rule_per_class_valued c11_R 0%nat c11_R_valued c11_R_pumps c11_R_minimal). Qed.
+Example C11_minimal_one_rule_per_class_total_nonvacuous :
+  forall i j, (i < 2)%nat -> (j < 2)%nat -> parent (nth i c11_R dummy) = parent (nth j c11_R dummy) -> i = j.
+Proof. exact (C11_minimal_one_rule_per_class_total c11_R 0%nat c11_R_pumps c11_R_minimal). Qed.
+(* near miss: with a second key for class 0 the list still pumps, is no longer minimal, and has two
+   keys with the same left-hand side *)
+Example C11_minimal_one_rule_per_class_near_miss :
+  let R := c11_R ++ [mkkey 0 [(0%nat, 1)]] in
+  pumps R 0 /\ pumps (firstn 2 R ++ skipn 3 R) 0 /\ parent (nth 0 R dummy) = parent (nth 2 R dummy).
+Proof. split; [apply pumps_decided; vm_compute; reflexivity|]. split; [exact c11_R_pumps|reflexivity]. Qed.
+
+(* C11_positional has no premise.  On the three-key list above: a sub-list with pairwise distinct
+   left-hand sides still pumps class 0 *)
+Example C11_positional_nonvacuous :
+  exists R', incl R' (c11_R ++ [mkkey 0 [(0%nat, 1)]]) /\ NoDup (map parent R') /\ pumps R' 0.
+Proof.
+  destruct (C11_positional (c11_R ++ [mkkey 0 [(0%nat, 1)]])) as (R' & Hi & Hn & Hd).
+  exists R'. split; [exact Hi|]. split; [exact Hn|]. intros v. apply Hd.
+  apply (pumps_incl c11_R); [|exact c11_R_pumps]. intros x Hx. apply in_or_app. left. exact Hx.
+Qed.
+
+(* one rule per class for the extractor's result *)
+Example C11_one_rule_per_class_nonvacuous :
+  forall i j, (i < 4)%nat -> (j < 4)%nat ->
+    parent (bk_key (nth i c11_res (mkb dummy 0))) = parent (bk_key (nth j c11_res (mkb dummy 0))) -> i = j.
+Proof. exact (C11_one_rule_per_class 500 0%nat c11_ks c11_res c11_buckets c11_extract c11_Pk). Qed.
+Lemma c11_res_runs : forall i, (i < length c11_res)%nat ->
+  exists pick' fuel' st, run pick' fuel' init (add_ops (firstn i c11_res ++ skipn (S i) c11_res)) = Some st.
+Proof.
+  intros [|[|[|[|i]]]] Hi; [| | | |simpl in Hi; lia]; exists pick0, 100%nat; eexists; vm_compute; reflexivity.
+Qed.
+Example C11_one_rule_per_class_runs_nonvacuous :
+  forall i j, (i < 4)%nat -> (j < 4)%nat ->
+    parent (bk_key (nth i c11_res (mkb dummy 0))) = parent (bk_key (nth j c11_res (mkb dummy 0))) -> i = j.
+Proof. exact (C11_one_rule_per_class_runs 500 0%nat c11_ks c11_res c11_buckets c11_extract c11_Pk c11_res_runs). Qed.
+Example C11_one_rule_per_class_total_nonvacuous :
+  forall i j, (i < 4)%nat -> (j < 4)%nat ->
+    parent (bk_key (nth i c11_res (mkb dummy 0))) = parent (bk_key (nth j c11_res (mkb dummy 0))) -> i = j.
+Proof. exact (C11_one_rule_per_class_total 500 0%nat c11_ks c11_res c11_buckets c11_extract c11_Pk). Qed.
+Example C11_one_rule_per_class_partial_nonvacuous :
+  forall i j, (i < 4)%nat -> (j < 4)%nat ->
+    parent (bk_key (nth i c11_res (mkb dummy 0))) = parent (bk_key (nth j c11_res (mkb dummy 0))) -> i = j.
+Proof. apply (C11_one_rule_per_class_partial c11_res). reflexivity. Qed.
+(* the check really rejects a list with two keys for one class (the inserted universe) *)
+Example C11_one_rule_per_class_partial_near_miss : distinct_parents c11_ks = false.
+Proof. reflexivity. Qed.
+
+(* totality *)
+Example C11_total_nonvacuous : exists res, extract 0 0 c11_ks = Ok res.
+Proof. exact (C11_total 0%nat 0%nat c11_ks c11_buckets c11_Pk). Qed.
+(* C11_never_out_of_fuel and C11_fuel_irrelevant have no premise; both sides really are the rule
+   set, even with the fuel floor 0 — and when the root does not pump (a case the harness entry
+   point run_c11 filters out beforehand, status 3) the model answers the EMPTY rule set *)
+Example C11_never_out_of_fuel_nonvacuous : extract 0 0 c11_ks <> OutOfFuel.
+Proof. exact (C11_never_out_of_fuel 0%nat 0%nat c11_ks). Qed.
+Example C11_fuel_irrelevant_nonvacuous : extract 0 0 c11_ks = extract 500 0 c11_ks.
+Proof. exact (C11_fuel_irrelevant 0%nat 500%nat 0%nat c11_ks). Qed.
+Example C11_fuel_irrelevant_value :
+  extract 0 0 c11_ks = Ok c11_res /\ extract 500 0 c11_ks = Ok c11_res /\
+  extract 0 0 [k_0a; k_1; k_2] = Ok [].
+Proof. repeat split; vm_compute; reflexivity. Qed.
+Example C11_closed_total_nonvacuous :
+  forall k c, In k c11_res -> mentions_class c k -> exists k', In k' c11_res /\ parent (bk_key k') = c.
+Proof. exact (C11_closed_total 500 0%nat c11_ks c11_res c11_buckets c11_Pk c11_extract). Qed.
+Example C11_total_correct_nonvacuous :
+  exists res, extract 7 0 c11_ks = Ok res /\
+    (forall k, In k res ->
+       In k c11_ks /\ pumps (map bk_key c11_ks) (parent (bk_key k)) /\
+       forall c s, In (c, s) (kids (bk_key k)) -> pumps (map bk_key c11_ks) c) /\
+    Pk 0 res /\
+    (forall i, (i < length res)%nat -> ~ Pk 0 (firstn i res ++ skipn (S i) res)) /\
+    (forall k c, In k res -> mentions_class c k -> exists k', In k' res /\ parent (bk_key k') = c).
+Proof. exact (C11_total_correct 7%nat 0%nat c11_ks c11_buckets c11_Pk). Qed.
+(* C11_harness_never_out_of_fuel has no premise; what the harness entry point answers on the
+   universe (status 0, four keys, check = 1): *)
+Example C11_harness_never_out_of_fuel_nonvacuous :
+  run_c11 (L [I 0; L (map enc_bkey c11_ks)]) <> L [I 1%Z; L []; I 0%Z].
+Proof. exact (C11_harness_never_out_of_fuel (L [I 0; L (map enc_bkey c11_ks)])). Qed.
+Example C11_harness_value :
+  run_c11 (L [I 0; L (map enc_bkey c11_ks)]) = L [I 0; L (map enc_bkey c11_res); I 1].
+Proof. vm_compute. reflexivity. Qed.
 
 Print Assumptions C11_subset.
 Print Assumptions C11_productive.
